@@ -10,6 +10,7 @@ import (
 	"runtime/debug"
 	"sort"
 	"strconv"
+	"strings"
 	"time"
 	"unicode/utf8"
 
@@ -36,7 +37,7 @@ func seedStream(cx *lib.Ctx, prop string) *lib.Rand {
 
 // runAll feeds one byte string to every entry point and applies schemas / evaluation to the results.
 // All random choices made here derive from the input bytes, so a failure replays from the input alone.
-func (rn *runner) runAll(src []byte) (sawErrors bool) {
+func (rn *runner) runAll(src []byte, origin string) (sawErrors bool) {
 	rn.doc = docOf(src)
 	rn.n = len(src)
 	// a literal such as 1e999999 is accepted by the parser, but printing its exact value (the harness's
@@ -71,7 +72,19 @@ func (rn *runner) runAll(src []byte) (sawErrors bool) {
 			res.Count("error-free:" + name)
 		}
 	}
-	sawErrors = !(cfgOK && exprOK && tmplOK && jsonOK && jexprOK)
+	// an input exercises an error path when the front end of its own syntax rejects it
+	switch {
+	case strings.HasPrefix(origin, "config"):
+		sawErrors = !cfgOK
+	case strings.HasPrefix(origin, "expression"), strings.HasPrefix(origin, "traversal"):
+		sawErrors = !exprOK
+	case strings.HasPrefix(origin, "template"):
+		sawErrors = !tmplOK
+	case strings.HasPrefix(origin, "json"):
+		sawErrors = !jsonOK && !jexprOK
+	default:
+		sawErrors = !cfgOK && !exprOK && !jexprOK
+	}
 
 	if body != nil {
 		rn.applySchemas(r, body, "native", 0)
@@ -114,7 +127,7 @@ func (rn *runner) runAll(src []byte) (sawErrors bool) {
 }
 
 func (rn *runner) one(src []byte, origin string) {
-	saw := rn.runAll(src)
+	saw := rn.runAll(src, origin)
 	rn.cx.Res.Case("in:"+strconv.FormatUint(hash64(src), 36)+":"+strconv.Itoa(len(src)), saw)
 	rn.cx.Res.Count("input:" + origin)
 	if saw {
@@ -172,7 +185,7 @@ func runC15(cx *lib.Ctx) {
 		res.Sample(docOf(src))
 		return
 	}
-	res.Rule = "valid programs (generated configurations with heredocs and templates, expressions, bare templates, traversals, JSON documents in HCL's profile, deep nestings) intact and damaged by 1-3 near-valid edits (insert / replace / delete / swap / duplicate / truncate, at token boundaries, of brackets, quotes, template introducers, heredoc markers, keywords, operators, numbers, comments, invalid UTF-8, control bytes) plus a hand corpus with every prefix; every input goes to all 13 entry points twice, then random schemas and scopes (derived from the input bytes) are applied; non-trivial = at least one parser reported an error; distinct by input bytes"
+	res.Rule = "valid programs (generated configurations with heredocs and templates, expressions, bare templates, traversals, JSON documents in HCL's profile, deep nestings) intact and damaged by 1-3 near-valid edits (insert / replace / delete / swap / duplicate / truncate, at token boundaries, of brackets, quotes, template introducers, heredoc markers, keywords, operators, numbers, comments, invalid UTF-8, control bytes) plus a hand corpus with every prefix; every input goes to all 13 entry points twice, then random schemas and scopes (derived from the input bytes) are applied; non-trivial = the front end of the input's own syntax reported an error; distinct by input bytes"
 
 	// ---- hand corpus and all its prefixes
 	for _, s := range handInputs {
@@ -185,7 +198,7 @@ func runC15(cx *lib.Ctx) {
 	}
 
 	root := seedStream(cx, "C15")
-	n := cx.Scale(6500, 100000)
+	n := cx.Scale(8000, 60000)
 	for i := 0; i < n; i++ {
 		r := root.Fork()
 		big := cx.Thorough() && r.Chance(1, 6)
